@@ -630,6 +630,15 @@ class Adaptors:
         cl = self.closures.run(cargs[0], params={2: ("ref", E)})
         if cl is None or cl["effects"]:
             return None
+        live_paths = [(pcs, ret) for pcs, ret in cl["paths"] if not (is_const(ret) and ret[1] == "0")]
+        if len(live_paths) == 1:
+            # a single way for the predicate to hold: everything it tested is known for this element
+            pcs, ret = live_paths[0]
+            for c, truth in list(pcs) + [(ret, True)]:
+                st = eng.assume(st, c, truth, nextcall[1])
+                if st is None:
+                    return False
+            return st
         allowed = {}
         touched = set()
         for pcs, ret in cl["paths"]:
